@@ -156,7 +156,9 @@ class C18(object):
     assumptions = ['governments take no goods name: for a renamed goods market the spec wires DEM_GOOD = DEM_<new> on the '
                    'government, as the bundled REG model does', 'MON and DEP market codes keep their defaults']
     required_counters = ('rename.compared', 'rename.compared.market_code_of_prefix_characters', 'rename.compared.codes_differing_only_by_case', 'embed.compared', 'embed.compared.capitalists_next_to_a_firm_that_retains_profits',
-                         'embed.compared.federation_with_default_currency_regions_behind_unused_external_sector', 'embed_book.compared', 'builds.compared_exactly')
+                         'embed.compared.federation_with_default_currency_regions_behind_unused_external_sector', 'embed_book.compared', 'builds.compared_exactly',
+                         'embed.with_refused_duplicate_country_attempts',
+                         'embed.with_zone_queries_during_construction')
 
     def n_cases(self, tier):
         return 24 if tier == 'quick' else 600
@@ -258,7 +260,15 @@ class C18(object):
         spec = case['spec']
         shape = 'embed|' + M.shape_of(spec) + ('|unused_ext' if case['unused_ext'] else '')
         rdc = bool(case.get('region_default_currency'))
-        joint = M.build(spec, unused_ext=case['unused_ext'], region_default_currency=rdc)
+        # the joint build is also the place where a caller's diagnostics and helpers run: a duplicate-country attempt after
+        # every country (refused, caught), the public zone API queried after every declaration
+        extras = {'dup_country_attempts': bool(case.get('federation_behind_unused_ext')) or bool(case.get('cap_next_to_retained_profits')),
+                  'query_zone': bool(case.get('cap_next_to_retained_profits'))}
+        if extras['dup_country_attempts']:
+            rec.count('embed.with_refused_duplicate_country_attempts')
+        if extras['query_zone']:
+            rec.count('embed.with_zone_queries_during_construction')
+        joint = M.build(spec, unused_ext=case['unused_ext'], region_default_currency=rdc, **extras)
         zone_keys = [[c['key'] for c in z['countries']] for z in spec['zones']]
         alone = []
         for z, keys in zip(spec['zones'], zone_keys):
